@@ -1,6 +1,7 @@
 #!/bin/bash
 # Runs every confirmed seeded change against the quick checks, in parallel, each in its own scratch
 # worktree of /repo HEAD (the checks take --repo), so /repo itself is never touched.
+# OWN=1: only the check of the property the change was written against (fast: one check per change)
 # usage: tools/run_seeded.sh [seeded/<name> ...]      env PROPS="C01 C05" restricts the checks, TIER=thorough
 HERE=$(cd "$(dirname "$0")/.." && pwd); export HERE; cd $HERE   # works from a snapshot of /verif too (vp run)
 PROPS=${PROPS:-$(python3 -c "import json;print(' '.join(c['property_id'] for c in json.load(open('MANIFEST.json'))['checks']))")}
@@ -10,7 +11,7 @@ one() {
   rm -rf $wt $out; git -C /repo worktree add -q --detach $wt HEAD 2>/dev/null || { echo "$n: worktree failed"; return; }
   if ! git -C $wt apply $HERE/seeded/$n/patch.diff 2>/dev/null; then echo "$n: PATCH DOES NOT APPLY"; git -C /repo worktree remove --force $wt; return; fi
   hits=""
-  PL="$PROPS"; [ -n "${TARGETED:-}" ] && PL=$(python3 $HERE/tools/props_for.py $HERE/seeded/$n/patch.diff ${n%%-*})
+  PL="$PROPS"; [ -n "${OWN:-}" ] && PL=${n%%-*}; [ -z "${OWN:-}" ] && [ -n "${TARGETED:-}" ] && PL=$(python3 $HERE/tools/props_for.py $HERE/seeded/$n/patch.diff ${n%%-*})
   for q in $PL; do
     o=$(VERIF_OUT=$out python3-vt -m hv.check $q --tier $TIER --repo $wt 2>&1); rc=$?
     if [ $rc = 1 ]; then hits="$hits $q($(echo "$o" | grep -c '^VIOLATION'))"; elif [ $rc = 2 ]; then hits="$hits $q(ERR)"; fi
@@ -19,6 +20,6 @@ one() {
   echo "$n: ${hits:- MISSED}"
   [ -n "${PROGRESS:-}" ] && echo "$n: ${hits:- MISSED}" >> $PROGRESS
 }
-RUNID=$$; export -f one; export PROPS TIER RUNID TARGETED PROGRESS
+RUNID=$$; export -f one; export PROPS TIER RUNID TARGETED PROGRESS OWN
 ls -d ${@:-seeded/*/} | xargs -P 14 -I{} bash -c 'one {}' | sort
 git -C /repo worktree prune
